@@ -164,14 +164,39 @@ class Replayer:
         rec.update(extra)
         sides = [node.sides[b] for b in node.sides] if backend == "both" else [node.sides[backend]]
         rec["tainted"] = any(node.entry_taint.get(sd.backend, False) for sd in sides)
-        if clause in ("rows", "order", "names", "export-error", "accept", "cross-rows", "cross-order", "cross-names"):
+        if clause in ("rows", "order", "names", "export-error", "accept", "cross-rows", "cross-order", "cross-names", "dialect-internal"):
             for sd in sides:
                 sd.tainted = True
         node.fails.append(rec)
 
+    def build_only(self, node, beh, k, side, tbl, obs):
+        """C19: dialects without a driver: build_query must give one SELECT, twice the same text, or a documented refusal."""
+        R = self.R
+        bk = side.backend
+        side.frames.append(None)
+        try:
+            q1 = tbl >> R.build_query()
+            q2 = tbl >> R.build_query()
+        except Exception as e:  # noqa: BLE001
+            cls = exc_class(e)
+            if cls in ("NotSupportedError", "SubqueryError"):
+                self.stats["dialect_refused"] = self.stats.get("dialect_refused", 0) + 1
+                return
+            self.fail(node, beh, k, bk, "dialect-internal", f"build_query raised {cls}: {str(e)[:300]}", exc=cls)
+            return
+        self.stats["dialect_queries"] = self.stats.get("dialect_queries", 0) + 1
+        if not isinstance(q1, str) or not q1.lstrip().upper().startswith(("SELECT", "WITH")):
+            self.fail(node, beh, k, bk, "dialect-noselect", f"build_query returned {str(q1)[:200]!r}")
+        elif q1 != q2:
+            self.fail(node, beh, k, bk, "dialect-nondet", "build_query twice on one table gave different text")
+        elif q1.count(";") and not any(ch in q1 for ch in "'\""):
+            self.fail(node, beh, k, bk, "dialect-noselect", "more than one statement")
+
     def project_and_compare(self, node, beh, k, side, tbl, obs, step):
         R = self.R
         bk = side.backend
+        if bk in ("postgres", "mssql"):
+            return self.build_only(node, beh, k, side, tbl, obs)
         # --- metadata accessors (C11)
         try:
             meta_cols = tbl >> R.columns()
@@ -598,7 +623,7 @@ class Replayer:
     # ------------------------------------------------------------------
     def cross_compare(self, node, beh, k, step):
         """C01: Polars and SQLite results of the same pipeline against each other."""
-        if "o" not in step or len(self.backends) < 2:
+        if "o" not in step or "polars" not in self.backends or "sqlite" not in self.backends:
             return
         sp, ss = node.sides["polars"], node.sides["sqlite"]
         if not (sp.alive and ss.alive):
